@@ -22,6 +22,8 @@ A *spec* is a JSON-able dict (all keys optional except `events`/`widths`):
   pad_seed     int                 (padding bytes are a pure function of it) or None => spaces
   extra        [[key, value], ...] additional primary TEXT pairs (inserted before the $Pn block)
   stext        [[key, value], ...] or None -- supplemental TEXT segment
+  stext_raw    str or None -- supplemental TEXT segment written verbatim (may be ill-formed)
+  stext_after  bool -- supplemental TEXT segment placed behind DATA instead of in front of it
   analysis     [[key, value], ...] or None
   analysis_in  'header' | 'text'
   mode         $MODE value
@@ -120,6 +122,10 @@ def build(spec):
     analysis = spec.get('analysis')
     st_bytes = encode_pairs(stext, delim, leading=spec.get('stext_leading', True)).encode('latin-1') \
         if stext is not None else b''
+    if spec.get('stext_raw') is not None:            # a supplemental segment written verbatim (possibly ill-formed)
+        stext = True
+        st_bytes = spec['stext_raw'].encode('latin-1')
+    st_after = bool(spec.get('stext_after')) and stext is not None     # supplemental TEXT behind DATA
     an_bytes = encode_pairs(analysis, delim, leading=spec.get('analysis_leading', True)).encode('latin-1') \
         if analysis is not None else b''
 
@@ -128,15 +134,17 @@ def build(spec):
         text_begin = pos
         text_end = pos + text_len - 1
         pos = text_end + 1 + pad[1]
-        if stext is not None:
+        st_begin = st_end = 0
+        if stext is not None and not st_after:
             st_begin, st_end = pos, pos + len(st_bytes) - 1
             pos = st_end + 1 + pad[1]
-        else:
-            st_begin = st_end = 0
         data_begin = pos
         data_last = pos + len(data) - 1
         data_end = data_last + (1 if spec.get('end_plus_one') else 0)
         pos = data_last + 1 + pad[2]
+        if st_after:
+            st_begin, st_end = pos, pos + len(st_bytes) - 1
+            pos = st_end + 1
         if analysis is not None:
             an_begin, an_end = pos, pos + len(an_bytes) - 1
             pos = an_end + 1
@@ -180,12 +188,15 @@ def build(spec):
     buf += _padding(pad[0], rnd, delim)
     buf += text
     buf += _padding(pad[1], rnd, delim)
-    if stext is not None:
+    if stext is not None and not st_after:
         buf += st_bytes
         buf += _padding(pad[1], rnd, delim)
     assert len(buf) == L['data_begin']
     buf += data
     buf += _padding(pad[2], rnd, delim)
+    if st_after:
+        assert len(buf) == L['st_begin']
+        buf += st_bytes
     if analysis is not None:
         assert len(buf) == L['an_begin']
         buf += an_bytes
